@@ -491,6 +491,16 @@ example : (((exMid.build Cfg.good false ["m/top"]).world.apply Cfg.good (.setRul
        ⟨"m/top", .fileSet, ["m/mid.fileset"], [], [], [], [], false⟩])).build Cfg.good false ["m/top"]).log =
     ["m/mid", "m/top"] := by decide
 
+/-- records older than the expiry (`Op.cacheExpire`; `null_build_executes_nothing` speaks about every
+    reachable world, aged ones included): everything is executed once, then nothing -/
+example : (((exOk.build Cfg.good false ["r/all"]).world.apply Cfg.good .cacheExpire).build Cfg.good false ["r/all"]).log =
+    ["r/a", "r/b", "r/all"] := by decide
+example : ((((exOk.build Cfg.good false ["r/all"]).world.apply Cfg.good .cacheExpire).build Cfg.good false
+    ["r/all"]).world.build Cfg.good false ["r/all"]).log = [] := by decide
+/-- a dangling symlink on an output path is detected and replaced by the regular output -/
+example : (((exOk.build Cfg.good false ["r/all"]).world.apply Cfg.good (.outLink "r/a.fileset" "nowhere")).build
+    Cfg.good false ["r/all"]).log = ["r/a"] := by decide
+
 /-! ## the theorems apply to the tree as it is now
 
 `genCfg` is read from the AST of `buildNode` on every run (order of `remove` / `build` / `put`,
